@@ -474,7 +474,7 @@ func (c *Ctx) cod3() {
 				if m["int:0"] && m["int:1"] && m["int:2"] && m["int:128"] {
 					last := len(p.Events) - 1
 					r := p.Events[last].Results[0]
-					if cl := classes(ef.of(r)); cl["errProtoReset"] {
+					if cl := classes(ef.ofOn(p, r)); cl["errProtoReset"] {
 						a.pass()
 					} else {
 						a.fail(p, last, "a SUBACK return code outside {0,1,2,0x80} does not lead to a protocol error")
@@ -922,6 +922,10 @@ func (c *Ctx) cod4() {
 		}
 	}
 	pk.done(1, "every Peek asks for the decoded size, or for the buffer size on a path that found the packet bigger")
+	// a big PUBLISH is announced with a full read buffer in c.peek, and
+	// onPUBLISH takes the topic and the packet identifier from there: the
+	// buffer holds at least 2 (topic length) + stringMax + 2 (identifier) bytes
+	c.cod4BufSize()
 	a.done(1, "the loop continues only while shift ≤ 14, so at most four length bytes are read")
 }
 
@@ -1229,4 +1233,61 @@ func (c *Ctx) cod3Suback(hs map[string]*ssa.Function) {
 	cnt.done(2, "the counter is incremented exactly in iterations that saw 0x80")
 	rep.done(2, "a SubscribeError goes out exactly when the count is non-zero")
 	each.done(2, "filters are collected exactly for code 0x80")
+}
+
+func (c *Ctx) cod4BufSize() {
+	a := c.accKeyless("COD-4", "readBufSize", "read-buffer≥2+stringMax+2(topic-and-identifier-of-a-big-PUBLISH-fit)")
+	need := 2 + c.constInt("stringMax") + 2
+	n := 0
+	for _, fn := range c.analysed() {
+		for _, b := range fn.Blocks {
+			for _, ins := range b.Instrs {
+				call, ok := ins.(*ssa.Call)
+				if !ok || call.Call.StaticCallee() == nil {
+					continue
+				}
+				var sizeArg ssa.Value
+				switch stdName(call.Call.StaticCallee()) {
+				case "bufio.NewReaderSize":
+					sizeArg = call.Call.Args[1]
+				case "bufio.NewReader":
+					n++
+					a.failAt(c.P.Pos(call.Pos()), "a connection is read through bufio.NewReader (4096 bytes): a big PUBLISH is announced before its topic and packet identifier are in c.peek")
+					continue
+				default:
+					continue
+				}
+				n++
+				size, known := int64(0), false
+				if k, ok := intConst(sizeArg); ok {
+					size, known = k, true
+				} else if u, ok := stripConv(sizeArg).(*ssa.UnOp); ok && u.Op == token.MUL {
+					if g, ok := u.X.(*ssa.Global); ok {
+						// the initial value; assignments elsewhere (tests shrink the buffer) are not judged
+						if init := g.Pkg.Func("init"); init != nil {
+							for _, ib := range init.Blocks {
+								for _, ii := range ib.Instrs {
+									if st, ok := ii.(*ssa.Store); ok && st.Addr == ssa.Value(g) {
+										if k, ok := intConst(st.Val); ok {
+											size, known = k, true
+										}
+									}
+								}
+							}
+						}
+					}
+				}
+				switch {
+				case !known:
+					a.failAt(c.P.Pos(call.Pos()), "the size of the read buffer (%s) is not a constant or a package-level variable with a constant initial value", Expr(sizeArg))
+				case size < need:
+					a.failAt(c.P.Pos(call.Pos()), "the read buffer holds %d bytes, fewer than the %d a PUBLISH with a topic of stringMax bytes and a packet identifier needs ahead of its payload: such a message, when bigger than the buffer, is rejected as malformed on every delivery attempt — never returned, never acknowledged", size, need)
+				default:
+					a.pass()
+				}
+			}
+		}
+	}
+	a.done(1, "bufio.NewReaderSize with at least 2+stringMax+2 bytes")
+	_ = n
 }
